@@ -868,8 +868,10 @@ func (t *tester) ephemeralFabrications(cs consensus.State, orig types.Block, bs 
 			}
 			want := false
 			if h < t.c.Net.N.HardforkV2.EphemeralOutputHeight && a.name != "never-created-id" {
-				// legacy window: the contents/ID of an in-block parent are not cross-checked (documented); not judged
-				t.b.Count(fmt.Sprintf("observed:legacy-window-ephemeral-alias-accepted=%v", err == nil), 1)
+				// below the ephemeral-output height the ID and contents of an in-block parent are not cross-checked (the
+				// hardfork's reason for being). The statement makes no exception for it: judged under a key of its own.
+				t.expect("ephemeral-siacoin-parent", "fabricated/"+a.name+"/below-the-ephemeral-output-height", want, "ValidateBlock", err == nil)
+				t.b.Count("ephemeral_fabrications_tried_in_the_legacy_window", 1)
 				continue
 			}
 			t.expect("ephemeral-siacoin-parent", "fabricated/"+a.name, want, "ValidateBlock", err == nil)
